@@ -387,8 +387,8 @@ PROBED = [
     ('internal-procedures', 'replays/C43/member-procedure-left-unfixed.json', SIG_MEMBER),
     ('one-line-if', 'replays/C43/one-line-if-statement-repeated.json', SIG_IF1),
     ('one-line-where', 'replays/C43/one-line-where-statement-repeated.json', SIG_WHERE1),
-    ('fixed-block-if-inside-else-if-branch', 'replays/C43/block-if-written-as-else-if.json', SIG_ELSEIF),
-    ('if-construct-with-two-or-more-else-if-branches', 'replays/C43/else-if-chain-type-error.json', SIG_ELSEIF3),
+    ('else-if-chain-with-further-else-if-or-nested-if-construct', 'replays/C43/block-if-written-as-else-if.json', SIG_ELSEIF),
+    ('else-if-chain-with-further-else-if-or-nested-if-construct', 'replays/C43/else-if-chain-type-error.json', SIG_ELSEIF3),
     ('continued-header-of-unfixed-block', 'replays/C43/continued-block-header-truncated.json', SIG_CONTHEAD),
     ('old-style-operator-hidden-below-fixed-construct', 'replays/C43/nested-statement-left-unfixed.json', SIG_NESTED),
 ]
@@ -636,25 +636,24 @@ def normalise(case, active):
                         r['ub'][a]['inline'] = False
                         mark('one-line-if')
 
-    # ---- conservative backend: an ELSE IF branch taken from source that is followed by another ELSE IF
-    if 'if-construct-with-two-or-more-else-if-branches' in active:
+    # ---- conservative backend: `is_elseif` stays in the keyword arguments below an ELSE IF branch that is taken from source: the
+    #      next ELSE IF of the chain, and any IF construct further down with an ELSE IF, raise TypeError; a re-generated block IF
+    #      further down is written as ELSE IF
+    name = 'else-if-chain-with-further-else-if-or-nested-if-construct'
+    if name in active:
+        def inner(s):
+            if s['k'] == 'if':
+                mark(name, _to_f90(s['br'][0]['c']))
+                if len(s['br']) > 1:
+                    del s['br'][1:]
+                    mark(name)
+
         def f(s):
             if s['k'] == 'if' and len(s['br']) >= 3:
                 del s['br'][1:-1]
-                mark('if-construct-with-two-or-more-else-if-branches')
-        for r, body in _bodies(model):
-            _walk_stmts(body, f)
-
-    # ---- conservative backend: a re-generated block IF below an ELSE IF / ELSE branch taken from source
-    if 'fixed-block-if-inside-else-if-branch' in active:
-        def inner(s):
-            if s['k'] == 'if':
-                mark('fixed-block-if-inside-else-if-branch', _to_f90(s['br'][0]['c']))
-
-        def f(s):
-            if s['k'] == 'if' and len(s['br']) >= 2:
-                for br in s['br'][1:]:
-                    _walk_stmts(br['b'], inner)
+                mark(name)
+            if s['k'] == 'if' and len(s['br']) == 2:
+                _walk_stmts(s['br'][1]['b'], inner)
                 if s['else']:
                     _walk_stmts(s['else'], inner)
         for r, body in _bodies(model):
@@ -1091,23 +1090,31 @@ def _check(case, ctx, work, behaviour=True):
     # 3. behaviour
     if not behaviour or os.environ.get('LOKIVERIF_C43_TEXT_ONLY'):     # (probes; development aid on a loaded box)
         return
-    before = build_and_run(work, 'before', text, lintgen.render_driver(model, case['inputs'], False, case['extra']))
+    from concurrent.futures import ThreadPoolExecutor
+    with ThreadPoolExecutor(2) as pool:
+        fb = pool.submit(build_and_run, work, 'before', text, lintgen.render_driver(model, case['inputs'], False, case['extra']))
+        fa = pool.submit(build_and_run, work, 'after', fixed, lintgen.render_driver(model, case['inputs'], True, case['extra']))
+        before, after = fb.result(), fa.result()
     if before[0] != 'ok':
         raise RuntimeError(f'generator produced a program that fails before the fix ({before[0]}): {before[1][:800]}\n{text}')
-    after = build_and_run(work, 'after', fixed, lintgen.render_driver(model, case['inputs'], True, case['extra']))
     # root causes the generator can name by construction
     shrunk = bool(fixed_dummies) and ('bound-smaller' in flags or case['extra'])
     if after[0] == 'compile':
-        if 'bound-local' in flags and re.search(r"Variable .(nl|ml). cannot appear in the expression", after[1]):
-            fail('C43:behaviour:fixed-file-does-not-compile:local-variable-as-explicit-extent', _first_error(after[1]))
-        else:
-            fail('C43:behaviour:fixed-file-does-not-compile', _first_error(after[1]))
+        what, detail = 'fixed-file-does-not-compile', _first_error(after[1])
     elif after[0] != 'ok':
-        fail('C43:behaviour:fixed-program-fails-at-run-time' + (':declared-extent-smaller-than-actual' if shrunk else ''),
-             after[1][-400:])
+        what, detail = 'fixed-program-fails-at-run-time', after[1][-400:]
     elif after[1] != before[1]:
-        fail('C43:behaviour:output-differs' + (':declared-extent-smaller-than-actual' if shrunk else ''),
-             _first_diff(before[1], after[1]))
+        what, detail = 'output-differs', _first_diff(before[1], after[1])
+    else:
+        return
+    if 'bound-local' in flags:
+        # the new explicit extent is a local variable: undefined on entry (gfortran accepts the declaration unless -std=f20xx is given)
+        fail('C43:behaviour:local-variable-as-explicit-extent', f'{what}: {detail}')
+    elif shrunk and what != 'fixed-file-does-not-compile':
+        # x(:) became x(<checked extent>) although the actual argument is longer: SIZE, whole-array operations and bounds change
+        fail('C43:behaviour:declared-extent-smaller-than-actual', f'{what}: {detail}')
+    else:
+        fail(f'C43:behaviour:{what}', detail)
 
 
 def _all_stmts(body):
@@ -1150,21 +1157,18 @@ def compare_comments(expected, exp, exp_lines, exp_com, act_com, fail):
             continue
         # inserted comments: a comment that follows a statement on its line is written once more on a line of its own when the
         # statement's source line is re-used (it contains the comment) next to the separate comment node
-        new = act_com[j1:j2]
-        t = new[0]['text']
-        lo, hi = j1, j2
-        if all(c['text'] == t for c in new):
-            while lo > 0 and act_com[lo - 1]['text'] == t:
+        def repeated(j):
+            # the run of equal comments around act_com[j] contains a comment behind a statement followed by the same comment on its own line
+            lo, hi = j, j + 1
+            while lo > 0 and act_com[lo - 1]['text'] == act_com[j]['text']:
                 lo -= 1
-            while hi < len(act_com) and act_com[hi]['text'] == t:
+            while hi < len(act_com) and act_com[hi]['text'] == act_com[j]['text']:
                 hi += 1
-        group = act_com[lo:hi]
-        pair = any(act_com[k]['ctx'] in ('trail', 'cont') and act_com[k + 1]['ctx'] == 'own' and (j1 <= k < j2 or j1 <= k + 1 < j2)
-                   for k in range(lo, hi - 1))
-        if pair:
-            fail('C43:comment:duplicated:trailing-comment-repeated-on-a-line-of-its-own', f'comment {t!r} appears {len(group)} times')
-        elif len(group) > len(new):
-            fail('C43:comment:duplicated:other', f'comment {t!r} appears {len(group)} times ({[c["ctx"] for c in group]})')
+            return any(act_com[k]['ctx'] in ('trail', 'cont') and act_com[k + 1]['ctx'] == 'own' for k in range(lo, hi - 1))
+        if all(repeated(j) for j in range(j1, j2)):
+            fail('C43:comment:duplicated:trailing-comment-repeated-on-a-line-of-its-own', f'comments {ac[j1:j2]} appear once more than expected')
+        elif any(ac[j] in ec[max(0, i1 - 1):i1 + 1] for j in range(j1, j2)):
+            fail('C43:comment:duplicated:other', f'unexpected repetition {ac[j1:j2]} between {ec[max(0, i1 - 1):i1 + 1]}')
         else:
             fail('C43:comment:added', f'unexpected comments {ac[j1:j2]}')
 
@@ -1280,5 +1284,7 @@ def run_shard(ctx):
 
 
 def replay(case, ctx):
-    _with_workdir(case, ctx)     # (as stored: the replays keep the triggers that the search excludes)
+    # as stored: the replays keep the triggers that the search excludes. A replay of a finding that the text oracles show
+    # carries "oracles": "text" and is not compiled and run
+    _with_workdir(case, ctx, behaviour=case.get('oracles') != 'text')
     return [(s, e['detail']) for s, e in ctx.failures.items()]
